@@ -477,6 +477,9 @@ class EvalMixin:
 
     def binop(self, op, l, r, st, node):
         l, r = self.lift(l), self.lift(r)
+        vec = self.vec_binop(op, l, r, st, node)
+        if vec is not None:
+            return vec
         # sequence operations
         if isinstance(op, ast.Add):
             if isinstance(l, TupV) and isinstance(r, TupV):
@@ -492,9 +495,6 @@ class EvalMixin:
                 el = z3.Select(c.arr, 0)
                 return new_list(st, c.t, z3.K(z3.IntSort(), el), z3.If(m > 0, m, 0))
             raise OutOfSubset('list * n')
-        vec = self.vec_binop(op, l, r, st, node)
-        if vec is not None:
-            return vec
         x, kx = self.num(l, st, node)
         y, ky = self.num(r, st, node)
         real = 'real' in (kx, ky)
@@ -522,7 +522,12 @@ class EvalMixin:
             return SV(INT, py_floordiv(x, y))
         if isinstance(op, ast.Mod):
             if real:
-                raise OutOfSubset('float %')
+                # Python float %: result has the sign of the divisor; x = k*y + r with integer k
+                k_ = fresh_const('modk', z3.IntSort())
+                self.safety(st, y != 0, 'div-by-zero', node)
+                r_ = x - z3.ToReal(k_) * y
+                st.assume(z3.If(y > 0, z3.And(0 <= r_, r_ < y), z3.And(y < r_, r_ <= 0)))
+                return SV(REAL, r_)
             self.safety(st, y != 0, 'div-by-zero', node)
             return SV(INT, py_mod(x, y))
         if isinstance(op, ast.Pow):
@@ -660,6 +665,8 @@ class EvalMixin:
             else:
                 raise OutOfSubset('`is` on %r, %r' % (l, r))
             return c if isinstance(op, ast.Is) else z3.Not(c)
+        if isinstance(op, (ast.Eq, ast.NotEq)) and not st.spec and ((isinstance(l, TupV) and l.cls == 'Vec') or (isinstance(r, TupV) and r.cls == 'Vec')):
+            return None
         if isinstance(op, (ast.Eq, ast.NotEq)):
             if (isinstance(l, Ref) and isinstance(st.store[l.id], ObjC)) or (isinstance(r, Ref) and isinstance(st.store[r.id], ObjC)):
                 return None
@@ -680,6 +687,8 @@ class EvalMixin:
             l = unpack(st, l.e, l.t)
         if isinstance(r, SV) and r.t.kind == 'tuple':
             r = unpack(st, r.e, r.t)
+        if (isinstance(l, TupV) and l.cls == 'Vec') or (isinstance(r, TupV) and r.cls == 'Vec'):
+            return None
         if isinstance(l, TupV) and isinstance(r, TupV):
             return self.lex_compare(op, l.items, r.items, st, node)
         x, kx = self.num(l, st, node)
@@ -743,6 +752,10 @@ class EvalMixin:
             return
         if isinstance(v, SV) and v.t.kind in ('list', 'dict', 'set', 'tuple'):
             v = unpack(st, v.e, v.t)
+        if isinstance(v, TupV) and isinstance(i, TupV) and len(i.items) == 2 and v.cls == 'Mat':
+            for row, st_ in self.getitem(v, i.items[0], st, node):
+                yield from self.getitem(row, i.items[1], st_, node)
+            return
         if isinstance(v, TupV):
             if isinstance(i, SV) and i.t.kind in ('int', 'bool'):
                 iv = z3.simplify(i.e)
@@ -800,7 +813,7 @@ class EvalMixin:
                         if not z3.is_int_value(q):
                             raise OutOfSubset('symbolic tuple slice')
                         return q.as_long()
-                    yield TupV(v.items[conc(lo):conc(hi)]), st2
+                    yield TupV(v.items[conc(lo):conc(hi)], v.cls if v.cls in ('Vec',) else None), st2
                     continue
                 if isinstance(v, Ref) and isinstance(st2.store[v.id], ListC):
                     c = st2.store[v.id]
@@ -925,11 +938,63 @@ class EvalMixin:
         if len(e.generators) != 1:
             raise OutOfSubset('nested comprehension')
         g = e.generators[0]
-        if has_impure_call(e.elt) or any(has_impure_call(c) for c in g.ifs):
-            yield from self.comprehension_as_loop(e, st, kind)
+        impure = has_impure_call(e.elt) or any(has_impure_call(c) for c in g.ifs)
+        if impure:
+            # statically short iterables are unrolled exactly (evaluation order and effects preserved)
+            static = None
+            if isinstance(g.iter, (ast.Tuple, ast.List)):
+                static = len(g.iter.elts)
+            elif not has_impure_call(g.iter):
+                try:
+                    probe = st.fork()
+                    pv = self.ev1(g.iter, probe)
+                    pn = z3.simplify(self.iter_domain(pv, probe, g.iter)[0])
+                    if z3.is_int_value(pn) and pn.as_long() <= 16:
+                        static = pn.as_long()
+                except (OutOfSubset, PathEnd):
+                    static = None
+            if static is None or kind != 'list' or g.ifs:
+                yield from self.comprehension_as_loop(e, st, kind)
+                return
+            for itv, st1 in self.ev(g.iter, st):
+                n, el = self.iter_domain(itv, st1, g.iter)
+
+                def rec(c, acc, stc):
+                    if c == static:
+                        yield list(acc), stc
+                        return
+                    self.bind_target(g.target, el(z3.IntVal(c)), stc)
+                    for v, st2 in self.ev(e.elt, stc):
+                        yield from rec(c + 1, acc + [self.lift(v)], st2)
+                for vals, st2 in rec(0, [], st1):
+                    if isinstance(e, ast.GeneratorExp) or not vals:
+                        yield (TupV(vals) if vals else EmptyV('list')), st2
+                    else:
+                        yield self.make_list(st2, vals), st2
             return
         for itv, st1 in self.ev(g.iter, st):
             n, el = self.iter_domain(itv, st1, g.iter)
+            nn = z3.simplify(n)
+            if z3.is_int_value(nn) and nn.as_long() <= 16 and kind == 'list':
+                # statically known short sequence: evaluate elementwise (no lambda arrays)
+                vals = []
+                for c in range(nn.as_long()):
+                    sub = st1.fork()
+                    self.bind_target(g.target, el(z3.IntVal(c)), sub)
+                    if g.ifs:
+                        conds = [z3.simplify(self.truth(self.ev1(cc, sub), sub)) for cc in g.ifs]
+                        if all(z3.is_true(x) for x in conds):
+                            pass
+                        elif any(z3.is_false(x) for x in conds):
+                            continue
+                        else:
+                            raise OutOfSubset('filtered comprehension with symbolic condition')
+                    vals.append(self.lift(self.ev1(e.elt, sub)))
+                if isinstance(e, ast.GeneratorExp) or not vals:
+                    yield (TupV(vals) if vals else EmptyV('list')), st1
+                else:
+                    yield self.make_list(st1, vals), st1
+                continue
             i = fresh_const('cmp', z3.IntSort())
             sub = st1.fork()
             sub.spec = True if st1.spec else sub.spec
